@@ -842,6 +842,15 @@ class state_machine_base : public FrontEnd
             std::optional<process_result> try_process_impl(derived_t& sm)
             {
                 mark_for_deletion();
+                // The occurrence is obsolete if its source state is no longer
+                // the active state of the region (e.g. it was created during
+                // an entry that was aborted by an exception and the pool
+                // survived until the SM was entered again).
+                if (sm.m_active_state_ids[m_region_id] !=
+                    derived_t::template get_state_id<State>())
+                {
+                    return process_result::HANDLED_FALSE;
+                }
                 return sm.template
                     process_completion_transition<completion_transition>(m_region_id);
             }
